@@ -6,7 +6,9 @@
 (*     data   first bytes of the input (at least the prescan window)                           *)
 (*     src    how the bytes were handed over: "bytes", "bytesio" or "pipe" (read() only)        *)
 (*     raised the stream constructor and parse() raised AssertionError (then nothing else)      *)
-(*     kw     [o, t, p, l, d]: the five *_encoding arguments as code points, or None           *)
+(*     kw     [o, t, p, l, d]: the five *_encoding arguments as code points, or None;          *)
+(*            det = [on, label]: the optional detector (a stand-in chardet module the harness    *)
+(*            injects) was consulted, and the encoding name of its verdict (or None)             *)
 (*     e0,c0,skip0   charEncoding and raw-stream position of a freshly built                    *)
 (*                   HTMLBinaryInputStream (= before the first character is decoded)            *)
 (*     ev     one record per meta start tag that reached InHeadPhase.startTagMeta, in order     *)
